@@ -61,6 +61,7 @@ def pool():
         "datetime": datetime.datetime, "UUID": uuid.UUID, "list[int]": list[int],
         "dict[str,int]": dict[str, int], "DC": mod.DC, "Color": mod.Color,
         "Literal": typing.Literal["a", 1], "None": NoneT, "Acct": mod.Acct, "Legacy": mod.Legacy,
+        "bytes": bytes,
     }
     utc = datetime.timezone.utc
     inputs = [
@@ -81,13 +82,15 @@ def pool():
         json.dumps(list(range(120))), json.dumps({f"k{i}": i for i in range(60)}), '{"a": ' + " " * 300 + "7}",
         json.dumps(list(range(120))).encode(), list(range(400)), {f"k{i}": i for i in range(300)}, "9" * 300, "x" * 300,
         '{"ident": ' + " " * 280 + '"ab-12"}',
+        # bytes that are no UTF-8 text (a member that takes bytes as they are accepts them, text-decoding members reject)
+        b"\x89PNG\r\n", bytearray(b"\xff\x00\xfe"), b"caf\xe9",
     ]
     # values offered to marshal: valid instances of some member, plus a few of none
     mvalues = [
         None, True, 1, -7, 1.5, "1", "abc", "", "a", decimal.Decimal("1.5"), datetime.date(2020, 1, 1),
         datetime.datetime(2020, 1, 1, 12, tzinfo=utc), uuid.UUID(int=5), [1, 2], [], ["x"], {"a": 1}, {},
         {"a": "x"}, mod.DC(a=1), mod.Color.RED, mod.Color.BLUE, (1, 2), object(), 2, "blue",
-        mod.Acct(ident=3), mod.Legacy(ident="ab-12"), list(range(400)),
+        mod.Acct(ident=3), mod.Legacy(ident="ab-12"), list(range(400)), b"\x89PNG", b"abc",
     ]
     return tys, inputs, mvalues
 
@@ -134,6 +137,7 @@ def enumerate_tuples(names, quick, rng):
 def run_tuple(tys, names, how, inputs, mvalues, rng, tid):
     """All observations for one union annotation.  Caches are cold per annotation (Union[A,B] ==
     Union[B,A] share every ==-keyed memo; that cross-talk is C12's subject, not C08's)."""
+    import typelib
     from typelib import marshals, unmarshals
     members = [tys[n] for n in names]
     try:
@@ -166,6 +170,11 @@ def run_tuple(tys, names, how, inputs, mvalues, rng, tid):
             ok, v = _call(U, mk())
             events.append({"tid": tid, "dir": "unmarshal", "names": list(names), "how": how, "inp": j, "pass": pas,
                            "members": outs, "xnone": x is None, "nonekey": nonekey, "res": {"ok": ok, "v": v}})
+            if pas == 1:
+                # the one-shot entry point is held to the same reference
+                ok, v = _call(lambda y: typelib.unmarshal(ann, y), mk())
+                events.append({"tid": tid, "dir": "unmarshal", "names": list(names), "how": how, "inp": j, "pass": 3,
+                               "members": outs, "xnone": x is None, "nonekey": nonekey, "res": {"ok": ok, "v": v}})
     for j, x in enumerate(mvalues):
         outs, unstable = [], False
         for i, r in enumerate(mm):
@@ -176,6 +185,9 @@ def run_tuple(tys, names, how, inputs, mvalues, rng, tid):
             continue
         ok, v = _call(M, x)
         events.append({"tid": tid, "dir": "marshal", "names": list(names), "how": how, "inp": j, "pass": 1,
+                       "members": outs, "xnone": x is None, "nonekey": nonekey, "res": {"ok": ok, "v": v}})
+        ok, v = _call(lambda y: typelib.marshal(y, t=ann), x)
+        events.append({"tid": tid, "dir": "marshal", "names": list(names), "how": how, "inp": j, "pass": 3,
                        "members": outs, "xnone": x is None, "nonekey": nonekey, "res": {"ok": ok, "v": v}})
     return events
 
@@ -240,7 +252,7 @@ def run(ctx: Ctx) -> Outcome:
         "evaluations": len(events),
         "distinct_nontrivial": len(nontrivial),
         "rule": "model: every member tuple of length 2..4 x None placement x outcome assignment x direction; "
-                "real: ordered member tuples over the 15-type pool (incl. a class and a subclass that re-types the inherited member) (all pairs; 3- and 4-tuples sampled in quick, "
+                "real: ordered member tuples over the 16-type pool (incl. a class and a subclass that re-types the inherited member) (all pairs; 3- and 4-tuples sampled in quick, "
                 "all 3-tuples in thorough) x spellings x input pool, two passes in different input orders on the "
                 "same routine; non-trivial = the first member rejects and a later member accepts",
         "union_annotations": tid,
